@@ -17,6 +17,7 @@ pub fn registry(property: &str) -> Option<CheckSpec> {
             parts: vec![Part::new(scenario::LpStaking, 15_000, 300_000)],
             assumptions: vec![
                 "the private reward functions are observed through the GT minted by claim_gt / unstake_lp; the reference allows every intermediate quantity (average APY, per-second rate, two products) to be rounded either down or up".into(),
+                "a year is 365.25 days (31 557 600 s) and amounts/APYs are 1e20 fixed point, as the program defines".into(),
                 "GM (market token) staking only; stake_glv differs from stake_gm only in the pricing CPI and is not exercised".into(),
                 "for a disabled controller the accrual window ends at the disabling time, as the program documents".into(),
                 "a full exit is required to succeed unless the accrual window is negative (clock regression) or the GT mint at the store would overflow its cost-growth loop".into(),
